@@ -90,7 +90,7 @@ def c19_plan(run, replay=None):
 def c20_plan(run, replay=None):
     q = run.tier == "quick"
     run.build_harness()
-    args = ["-in", "cases.ndjson", "-out", "trace.ndjson"]
+    args = ["-in", "cases.ndjson", "-out", "trace.ndjson", "-gen", 3 if q else 30, "-seed", run.seed]
     if replay:
         replay_cases(run, replay, "cases.ndjson")
     else:
@@ -148,6 +148,12 @@ def realtime_plan(prop, pools, floors):
             run.load_inputs(out + ".inputs")
             run.validate_trace("RealtimeObs", out, s["cases"], timeout=3000)
             total += s["cases"]
+        if not replay and prop in ("C04", "C07"):
+            # the same properties for parses with the NYCT trips extension (assigned trips are linked to the train's vehicle)
+            run.tlc("NyctTripsMC", "C16_all.cfg", "design", workers=8, cases_out="nyct.ndjson", timeout=1500)
+            s2 = run.harness("nycttrips", ["-in", "nyct.ndjson", "-out", "nyct_obs.ndjson", "-origins", "none", "-seed", run.seed], timeout=3000)
+            run.load_inputs("nyct_obs.ndjson.inputs")
+            run.validate_trace("NyctTripsObs", "nyct_obs.ndjson", s2["cases"], timeout=3000)
         only(run, [prop + "."])
         run.crashes = [c for c in run.crashes]
         if not replay:
@@ -423,7 +429,7 @@ def c05_plan(run, replay=None):
          "resource use proportional to input size is out of scope (as in the property)"], exhaustive=False)
 
 
-ZONES = "nil,UTC,America/New_York,Asia/Kolkata,fixed+0545,Pacific/Auckland,fixed-0330"
+ZONES = "nil,UTC,America/New_York,Asia/Kolkata,fixed+0545,Pacific/Auckland,fixed-0330,sameName+9,sameName-5"
 
 PLANS = {
     "C05": c05_plan,
